@@ -206,11 +206,12 @@ class TIBaseBackend: # ToDo: translate this numpy code into tensornetwork
             o_2 = c_real * self._ops[1] - 1j * c_imag * self._ops[2]
             # shape ( e, n, s)
             tensor = np.dot(self._initial_data, self._prop.T * exp(o_1 * o_2))
-            self.data.append(np.dot(tensor, self._prop.T))
+            free_prop = np.dot(tensor, self._prop.T)
             # contains whole timestep freeprop!
             tensor = np.dot(self._influence_tensor(0), tensor.T)
             tensor = swapaxes(tensor.sum(0), 0, 2)
             self._mps = [tensor, self._cap]
+            self.data.append(free_prop)
             self.data.append(self.readout())
             self._step = 1
         return self._step, self.data[-1]
